@@ -4,7 +4,8 @@ demo passes on the clean tree, fails with the patch; then run the checks named i
 (quick tier) with the patch applied and report which catch it. Usage: tools_seeded.py [name ...]"""
 import glob, json, os, subprocess, sys, time
 HERE = os.path.dirname(os.path.abspath(__file__))
-REPO = '/repo'
+SRC = '/repo'
+REPO = '/tmp/verif_scratch_repo'     # scratch worktree: background runs keep using /repo undisturbed
 def sh(*a, **kw):
     return subprocess.run(a, capture_output=True, text=True, **kw)
 def demo(d):
@@ -13,7 +14,16 @@ def demo(d):
     p = sh('/venv/bin/python', os.path.join(d, 'demo.py'), cwd=REPO, env=env)
     return p.returncode, (p.stdout + p.stderr)[-300:]
 def main(names):
-    assert not sh('git', '-C', REPO, 'status', '--porcelain', '--untracked-files=no').stdout.strip(), '/repo has local changes'
+    sh('git', '-C', SRC, 'worktree', 'remove', '--force', REPO)
+    r = sh('git', '-C', SRC, 'worktree', 'add', '--detach', REPO, 'HEAD')
+    assert r.returncode == 0, r.stderr
+    try:
+        return _main(names)
+    finally:
+        sh('git', '-C', SRC, 'worktree', 'remove', '--force', REPO)
+        sh('git', '-C', SRC, 'worktree', 'prune')
+
+def _main(names):
     out = []
     for d in sorted(glob.glob(os.path.join(HERE, 'seeded', '*'))):
         name = os.path.basename(d)
@@ -29,7 +39,7 @@ def main(names):
             line = '%-10s demo clean=%s patched=%s' % (name, rc0, rc1)
             for chk in meta.get('checks', [meta['property']]):
                 t = time.time()
-                p = sh('/venv/bin/python', '-m', 'sim', 'check', chk, '--tier', 'quick', cwd=HERE)
+                p = sh('/venv/bin/python', '-m', 'sim', 'check', chk, '--tier', 'quick', cwd=HERE, env=dict(os.environ, VERIF_REPO=REPO))
                 keys = [l.split('key=')[1].split(' ::')[0] for l in p.stdout.splitlines() if 'violation clause=' in l]
                 status = {0: 'MISSED', 1: 'caught', 2: 'harness-error'}.get(p.returncode, 'exit%d' % p.returncode)
                 line += ' | %s %s %.0fs %s' % (chk, status, time.time() - t, keys[:2])
